@@ -202,6 +202,7 @@ type Session struct {
 	where   string
 	noUF    bool
 	dump    io.Writer
+	asserted map[thash]bool // conjuncts of the current path condition, by structural hash
 }
 
 func NewSession(order []string, timeoutMs int, stats *SolverStats) *Session {
@@ -248,6 +249,7 @@ func (se *Session) emit(cmd string) {
 func (se *Session) BeginPath() {
 	se.script = se.script[:0]
 	se.r = NewRenderer(se.emit)
+	se.asserted = map[thash]bool{}
 	p := se.solver(se.order[0])
 	p.Send("(push)")
 	se.inPath = true
@@ -263,12 +265,69 @@ func (se *Session) EndPath() {
 	}
 }
 
+// markAsserted records t (and, for a conjunction, its conjuncts) as part of the path condition.
+func (se *Session) markAsserted(t *Term) {
+	if t.op == "and" {
+		for _, a := range t.args {
+			se.markAsserted(a)
+		}
+	}
+	se.asserted[se.r.h.of(t)] = true
+}
+
+// Implied reports whether t is syntactically one of the conjuncts already asserted on this path.
+func (se *Session) Implied(t *Term) bool {
+	if se.asserted == nil || t.op == "c" {
+		return false
+	}
+	return se.asserted[se.r.h.of(t)]
+}
+
 func (se *Session) Assert(t *Term) {
 	if v, ok := t.ConstBool(); ok && v {
 		return
 	}
+	se.markAsserted(t)
 	s := se.r.Render(t)
 	se.emit("(assert " + s + ")")
+}
+
+// CheckBranch decides whether a branch condition is feasible. When the path condition contains
+// non-linear products the question is put to the uninterpreted-product abstraction only: `unsat`
+// there is definitive (the side is pruned); anything else keeps the side. Exploring a side that is
+// in fact infeasible is sound: every obligation on it is still decided exactly (path ∧ ¬assertion
+// is then unsat), it only costs time — far less than exact non-linear sat queries at every branch.
+func (se *Session) CheckBranch(c *Term) SatResult {
+	if v, ok := c.ConstBool(); ok && !v {
+		return Unsat
+	}
+	es := se.r.Render(c)
+	if !se.r.sawNL || se.noUF {
+		r, _ := se.Check(c, nil)
+		return r
+	}
+	s := se.solver("z3new-uf")
+	var sb strings.Builder
+	sb.WriteString("(push)\n")
+	for _, cmd := range se.script {
+		sb.WriteString(cmd)
+		sb.WriteByte('\n')
+	}
+	sb.WriteString("(assert " + es + ")\n(check-sat)")
+	t0 := time.Now()
+	lines, ok := s.roundTrip(sb.String())
+	res := classify(lines, ok)
+	se.stats.add("z3new-uf", time.Since(t0))
+	if ok {
+		s.Send("(pop)")
+	}
+	if traceSolver {
+		fmt.Printf("  [q z3new-uf(branch) %s %.2fs] %s\n", res, time.Since(t0).Seconds(), se.where)
+	}
+	if res == Unsat {
+		return Unsat
+	}
+	return Sat
 }
 
 // Check decides satisfiability of (path condition ∧ extra). If wantModel is non-empty and the
